@@ -494,10 +494,14 @@ def f5(repo: Repo) -> RuleResult:
             for p_ in flow.run(f2.node, {"self": V("self"), f2.node.args.args[1].arg: V("message")}):
                 a_ = single_atom(p_.ret) if p_.ret is not None else None
                 got = show(p_.ret) if p_.ret is not None else "None"
-                if a_ is None or a_[0] != "mcall" or a_[1] != "format_op_mode_endecode_message" or len(a_[2]) != 5:
+                from .pyflow import bind_call_atom
+
+                callee = m.func("renderer/formatter.py", "Formatter.format_op_mode_endecode_message")
+                bound_ = bind_call_atom(a_, [x.arg for x in callee.node.args.args[1:]]) if a_ is not None and a_[0] == "mcall" and a_[1] == "format_op_mode_endecode_message" else None
+                if bound_ is None or len(bound_) != 4:
                     ok = False
                     continue
-                _, msg, chain, enc, cur = a_[2]
+                msg, chain, enc, cur = [bound_[x.arg] for x in callee.node.args.args[1:]]
                 ca = single_atom(chain)
                 if show(msg) != "message" or enc.const_value() != flag or show(cur) != "(0)" or ca is None or ca[0] != "mcall" or ca[1] != "format_op_mode_endecoder_message_var":
                     ok = False
